@@ -504,7 +504,7 @@ func (ex *Exec) initIntrinsics() {
 	in["io.ReadFull"] = func(ex *Exec, st *State, args []Value, site ssa.CallInstruction) Value {
 		r := args[0].(IfaceV)
 		if r.T != nil {
-			unsupported("io.ReadFull from %s must be stubbed by the harness", r.T)
+			return notHandled{} // a real reader: interpret io.ReadFull itself
 		}
 		// nil reader = crypto/rand.Reader (package state not initialised): environment bytes
 		s := args[1].(SliceV)
